@@ -30,6 +30,18 @@ CHECKS = {
     'C06': dict(
         technique='static analysis: parameter-to-sink dataflow on MIR (aad, tag, every ciphertext byte reach the AEAD verify call unmodified), must-check of the AEAD verdict',
         text='Static analysis: aad/tag/ciphertext parameters flow unmodified and whole into the AEAD decrypt call in every opening interface; the allocating open splits exactly once at len-Nt and uses the input in no other way; the tag is appended directly after the ciphertext by seal; the verdict is never dropped. That the AEAD rejects modified input is the trusted base.'),
+    'C09': dict(
+        technique='static analysis: guard dominance on the MIR CFG, allow-list of validating constructors, constructor-site enumeration (typestate), decision table of the length helper',
+        text='Static analysis of the three NIST macro expansions and the four EncappedKey impls: the exact-length guard (expected = type-level OutputSize, given = len) is propagated and its success edge dominates the parser; the parser is an allow-listed validating RustCrypto constructor on the whole input, its error maps to ValidationError and its Ok payload is what is wrapped; every construction site of a key newtype wraps a validated source; enforce_equal_len decision table; dh only accepts the newtypes. Correctness of RustCrypto\'s validation itself (curve equation, canonical coordinates, scalar range) is the trusted base.'),
+    'C10': dict(
+        technique='static analysis: exhaustive decision table over the single zero-test atom, control dependence of Ok on it, must-check of every dh() result, inter-procedural error-set analysis with class-hierarchy resolution',
+        text='Static analysis: X25519 dh compares the dalek DH output with 32 zero bytes and returns Err exactly on equality, Ok(that result) otherwise; all 16 dh call sites map the error to EncapError (encapsulation) / DecapError (decapsulation) and propagate it; setup_sender can only fail with EncapError and setup_receiver only with DecapError, and no context is built on failure. Which encodings give the zero output is curve25519 mathematics (trusted).'),
+    'C15': dict(
+        technique='static analysis: finite boolean abstraction of PskBundle::new enumerated exhaustively on the CFG (decision table), per-variant decision tables of the mode accessors, key-schedule slot dataflow, constructor-site enumeration',
+        text='Static analysis: the complete truth table of PskBundle::new over the two emptiness atoms (exact for all byte strings since nothing else is branched on) is Ok iff both agree, else InvalidPskBundle; field order; which bundle field feeds which key-schedule input in Psk/AuthPsk mode and the empty defaults elsewhere; bundles are only built by the validating constructor.'),
+    'C16': dict(
+        technique='static analysis: ADT/Drop facts, must-pass-through of Zeroize::zeroize in every Drop body followed through the call graph to the zeroize crate, drop-elaborated MIR must-pass-through of the Drop terminator for the temporary key, leak-function enumeration',
+        text='Static analysis of structure only: every secret-holding type has a Drop that zeroizes the whole buffer on all paths via the zeroize crate; the context stores the secrets in those types; no forget/ManuallyDrop/leak on them; the temporary AEAD key and the by-value shared secret are only borrowed and dropped on every path of the key schedule. What memory really contains after drop (compiler copies, registers, the AEAD\'s own key schedule) is not decidable statically and not claimed.'),
     'C14': dict(
         technique='static analysis: pass-through proof on MIR provenance terms (argument i -> parameter j, error identity, result identity), writer-sequence recognition for the allocating forms',
         text='Static analysis proving each single_shot_* body is exactly setup_* followed by one context-method call on the fresh context with its own parameters in order, errors and results unchanged, and that seal/open wrap the in-place forms (copy, in-place call on buf[..len], tag at [len..len+Nt) / split at len-Nt). Equivalence with the composed calls then holds for all inputs given the composed functions are functions of their arguments (C18).'),
